@@ -64,8 +64,8 @@ then starts a new message. -/
 theorem C03_roundtrip_reused_counter (seq : Nat) (P : Bytes) (hs : seq < 8) (hP : P.length ≤ 223)
     (r0 : Option Rec) (hnew : startsNew r0 seq (P.length :: P.take 6) = true) :
     run r0 (frames seq P) =
-      (none, List.replicate ((frames seq P).length - 1) Out.stored ++ [Out.complete P]) := by
-  sorry
+      (none, List.replicate ((frames seq P).length - 1) Out.stored ++ [Out.complete P]) :=
+  run_frames_new seq P hs hP r0 hnew
 
 /-- consecutive messages (counter wrap-around included): each is returned exactly once, in order -/
 def encodeAll : Nat → List Bytes → List Bytes
